@@ -115,6 +115,9 @@ func Conform(sc *Scenario, rootName string, labels []string) (steps int, blocks 
 			}
 		case op.EndTo > 0:
 			advance(op.EndTo)
+		case op.Kind == "fullend":
+			// the explorer ran the whole module manager's end-blocker at this height; real ABCI does the same
+			advance(h)
 		case op.Kind == "skip":
 		default:
 			return fmt.Errorf("step %d (%s): custom op not supported by conformance", step, op.Label)
